@@ -26,3 +26,5 @@ pub assume_specification<P: core::str::pattern::Pattern> [str::contains::<P>] (s
     ensures r == contains_sub(s@, pat_view(p));
 pub assume_specification [http::Uri::path] (u: &http::Uri) -> (r: &str)
     ensures r@ == uri_path(*u);
+#[verifier::external_body] pub broadcast proof fn axiom_fmt_error() ensures #[trigger] vstd::std_specs::fmt::fmt_req_all::<crate::common::error::Error>() {}
+#[verifier::external_body] pub broadcast proof fn axiom_fmt_serde_error() ensures #[trigger] vstd::std_specs::fmt::fmt_req_all::<serde_json::Error>() {}
